@@ -535,6 +535,9 @@ def itermergesort(sources, key, header, missing, reverse):
         # now use field indices to construct a _getkey function
         # N.B., this will probably raise an exception on short rows
         getkey = comparable_itemgetter(*indices)
+    elif outhdr:
+        # lexical sort over all fields, under the same ordering as sort()
+        getkey = comparable_itemgetter(*range(len(outhdr)))
 
     # OK, do the merge sort
     for row in _shortlistmergesorted(getkey, reverse, *sits):
